@@ -159,6 +159,10 @@ func progScenario(spec *apiProgSpec) *Scenario {
 type dlSpec struct {
 	A, B   epCfg
 	Offset time.Duration // deadline relative to the arrival instant of the first message
+	// Idle: the reader is not inside a read when the deadline expires; it first calls ReadSCTP
+	// IdleFor after the arrival instant (the deadline has fired, a message is readable).
+	Idle    bool
+	IdleFor time.Duration
 }
 
 func deadlineScenario(spec *dlSpec) *Scenario {
@@ -183,6 +187,9 @@ func deadlineScenario(spec *dlSpec) *Scenario {
 			var got []string
 			rd := m.Go("reader", func() {
 				_ = sb.SetReadDeadline(time.Now().Add(deadline - m.S.Now()))
+				if spec.Idle {
+					m.Sleep(arrival + spec.IdleFor - m.S.Now())
+				}
 				buf := make([]byte, 2000)
 				for len(got) < 2 {
 					n, _, err := sb.ReadSCTP(buf)
@@ -193,7 +200,7 @@ func deadlineScenario(spec *dlSpec) *Scenario {
 							m.Failf("deadline.error", "read failed with %v", err)
 							return
 						}
-						if now != deadline {
+						if now != deadline && !spec.Idle {
 							m.Failf("deadline.instant", "blocked read returned the deadline error at %v, the deadline was %v", now, deadline)
 						}
 						_ = sb.SetReadDeadline(time.Time{})
@@ -230,6 +237,9 @@ type blockSpec struct {
 	Writers   int
 	Unordered bool
 	PPI       PayloadProtocolIdentifier
+	// SameStream: all writers share stream 1; only writer 0 ever sets (and clears) the
+	// write deadline, so another writer queued behind its failing write goes on to succeed.
+	SameStream bool
 }
 
 func blockScenario(spec *blockSpec) *Scenario {
@@ -252,31 +262,46 @@ func blockScenario(spec *blockSpec) *Scenario {
 			got := map[uint16][]string{}
 			for w := 0; w < spec.Writers; w++ {
 				sid := uint16(1 + w)
-				sa, _ := a.OpenStream(sid, PayloadTypeWebRTCBinary)
-				sb, _ := m.As[1].OpenStream(sid, PayloadTypeWebRTCBinary)
-				m.streamsSeen = append(m.streamsSeen, sa, sb)
-				sa.SetReliabilityParams(spec.Unordered, ReliabilityTypeReliable, 0)
+				var sa, sb *Stream
+				if spec.SameStream {
+					sid = 1
+				}
+				if !spec.SameStream || w == 0 {
+					sa, _ = a.OpenStream(sid, PayloadTypeWebRTCBinary)
+					sb, _ = m.As[1].OpenStream(sid, PayloadTypeWebRTCBinary)
+					m.streamsSeen = append(m.streamsSeen, sa, sb)
+					sa.SetReliabilityParams(spec.Unordered, ReliabilityTypeReliable, 0)
+				} else {
+					sa = a.streams[sid]
+				}
 				ppi := spec.PPI
 				if ppi == 0 {
 					ppi = PayloadTypeWebRTCBinary
 				}
-				readers = append(readers, m.Go(fmt.Sprintf("reader%d", sid), func() {
-					m.Sleep(3 * time.Second) // let the window close first
-					buf := make([]byte, 4000)
-					for {
-						n, _, err := sb.ReadSCTP(buf)
-						if err != nil {
-							return
+				w := w
+				if !spec.SameStream || w == 0 {
+					readers = append(readers, m.Go(fmt.Sprintf("reader%d", sid), func() {
+						m.Sleep(3 * time.Second) // let the window close first
+						buf := make([]byte, 4000)
+						for {
+							n, _, err := sb.ReadSCTP(buf)
+							if err != nil {
+								return
+							}
+							mu.Lock()
+							got[sid] = append(got[sid], string(buf[:n]))
+							mu.Unlock()
 						}
-						mu.Lock()
-						got[sid] = append(got[sid], string(buf[:n]))
-						mu.Unlock()
-					}
-				}))
-				ws = append(ws, m.Go(fmt.Sprintf("writer%d", sid), func() {
+					}))
+				}
+				ws = append(ws, m.Go(fmt.Sprintf("writer%d.%d", sid, w), func() {
 					for i := 0; i < 5; i++ {
-						data := payload(sid, i, 500)
-						if i == 3 {
+						data := payload(sid, w*8+i, 500)
+						if spec.SameStream {
+							if w == 0 && i == 2 {
+								_ = sa.SetWriteDeadline(time.Now().Add(400 * time.Millisecond))
+							}
+						} else if i == 3 {
 							_ = sa.SetWriteDeadline(time.Now().Add(400 * time.Millisecond))
 						} else {
 							_ = sa.SetWriteDeadline(time.Time{})
@@ -284,11 +309,14 @@ func blockScenario(spec *blockSpec) *Scenario {
 						n, err := sa.WriteSCTP(data, ppi)
 						m.Logf(fmt.Sprintf("bwrite sid=%d #%d", sid, i), "n=%d err=%v", n, err)
 						if err != nil {
+							if spec.SameStream && w == 0 {
+								_ = sa.SetWriteDeadline(time.Time{})
+							}
 							if n != 0 {
 								m.Failf("block.reject", "failed blocking write returned n=%d", n)
 							}
 							// the failed write must not be counted: the figure equals what is really outstanding
-							if b, u := int(sa.BufferedAmount()), unackedOf(a, sid); b != u {
+							if b, u := int(sa.BufferedAmount()), unackedOf(a, sid); b != u && !spec.SameStream {
 								m.Failf("block.sideeffect", "after a failed blocking write stream %d reports %d buffered bytes but %d are pending or unacknowledged", sid, b, u)
 							}
 							m.S.Yield()
@@ -333,7 +361,7 @@ func blockScenario(spec *blockSpec) *Scenario {
 					m.Failf("block.delivery", "stream %d: %d of %d accepted messages delivered (a failed write disturbed the stream)", sid, len(g), len(w))
 					continue
 				}
-				ordered := !spec.Unordered || spec.PPI == PayloadTypeWebRTCDCEP
+				ordered := (!spec.Unordered || spec.PPI == PayloadTypeWebRTCDCEP) && !spec.SameStream
 				left := map[string]int{}
 				for i := range w {
 					left[w[i]]++
@@ -446,6 +474,14 @@ func propC18(j *Job) {
 			if j.capped() {
 				return
 			}
+			for _, idle := range []time.Duration{0, 50 * time.Millisecond} {
+				is := *spec
+				is.Idle, is.IdleFor = true, idle
+				j.Explore(fmt.Sprintf("D/%s/off%v/idle%v", mode.Name, off, idle), deadlineScenario(&is), Budget{D: d}, nil)
+				if j.capped() {
+					return
+				}
+			}
 		}
 	}
 	// (3) blocking-write mode
@@ -470,6 +506,14 @@ func propC18(j *Job) {
 				j.Explore(fmt.Sprintf("BW/%s/w%d/U%v/ppi%d", mode.Name, nw, v.u, v.ppi), blockScenario(spec), Budget{D: d}, nil)
 				if j.capped() {
 					return
+				}
+				if nw >= 2 && (j.Thorough() || (nw == 2 && vi == 0)) {
+					ss := *spec
+					ss.SameStream = true
+					j.Explore(fmt.Sprintf("BW/%s/w%d/U%v/ppi%d/same", mode.Name, nw, v.u, v.ppi), blockScenario(&ss), Budget{D: 1}, nil)
+					if j.capped() {
+						return
+					}
 				}
 			}
 		}
